@@ -15,11 +15,11 @@ func init() {
 		Prop:  "C10",
 		Title: "Records are transformed independently; a failing record affects only itself",
 		Explanation: "The law can only fail through state that survives from one record to the next; the rules close the list of such state. " +
-			"R10a fresh evaluation context: a *parseCtx value is never stored into a struct field, global, map, slice or channel anywhere in the repository; in every Ingester.Read the context is obtained from the constructor inside Read itself and used only as the receiver of ParseNode; the per-record result cache map is only ever a fresh map stored into the fresh context. " +
+			"R10a fresh evaluation context: a *parseCtx value is never stored into a struct field, global, map, slice or channel anywhere in the repository; in every Ingester.Read (Read plus the same-package helpers it calls statically, arguments bound to parameters and results to call values) the context is obtained from the constructor during that call of Read and used only as the receiver of ParseNode; the per-record result cache map is only ever a fresh map stored into the fresh context. " +
 			"R10b release-before-read: in every Ingester.Read, every path to the format reader's Read either releases the previous raw record or passes the edge on which the holder is nil; the holder is cleared after the release. " +
-			"R10c a per-record failure does not disturb the reader: on the ParseNode-failed branch of Ingester.Read the only format-reader method reachable is FmtErr, and every FmtErr implementation in the repository is store-free (no write through its receiver or to globals, transitively). " +
+			"R10c a per-record failure does not disturb the reader: on the ParseNode-failed branch of Ingester.Read (followed from a helper's error result to the helper's call sites in Read) the only format-reader method reachable is FmtErr, and every FmtErr implementation in the repository is store-free (no write through its receiver or to globals, transitively). " +
 			"R10d closed allow-list of process-wide mutable state on the run set: no store rooted at a package-level variable; globals read have init-only writers; objects in globals are used only via sync.Pool / sync/atomic / LoadingCache.Get. " +
-			"R10e reader-owned buffers: in the flat-file readers the number of buffered lines converted into a node equals the number popped (structurally equal pure expressions), so no line of a previous record is re-read and none is skipped. " +
+			"R10e reader-owned buffers: in the flat-file readers (a pop method carves its buffer field out of itself by reslice/append, a convert method returns a node for the first n lines) the number of buffered lines converted into a node equals the number popped (structurally equal pure expressions), so no line of a previous record is re-read and none is skipped. " +
 			"R10h pooled JavaScript VMs are wiped on every path (= C20 R20a) and R10i no run-set store reaches a schema-owned object (= C14 R14a): neither a failed record's script arguments nor a value memoised into the shared declarations can reach a later record. " +
 			"R10j borrowed-buffer discipline of the line/segment readers (= C09 R09a). R10f pooled nodes are blank (= C12 R12b–d): a recycled node carries nothing from the record or transform that used it before. R10g the bytes returned for a record are nil or a fresh json.Marshal result, never a slice of a reused buffer (earlier results must not change when later records are read).",
 		NotDecided: "the algebraic law itself (concatenation/permutation of runs); schemas addressing ancestors (outside the property's quantifier); state kept inside third-party decoders.",
@@ -183,18 +183,23 @@ func c10FreshCtx(c *core.Ctx, rule string) ([]*ssa.Function, *types.Interface, *
 		c.Unresolved(rule, "Ingester implementation", "no built-in type implements schemahandler.Ingester")
 		return nil, nil, nil
 	}
+	repoSites := c10RepoSites(c)
 	for _, f := range ingReads {
 		key := core.FuncKey(f)
+		// "this call of Read" = Read plus the same-package helpers it calls statically (parameters bound at the call sites)
+		region := c10RegionOf(f)
 		var ctor []*ssa.Call
 		var parseCalls []ssa.CallInstruction
-		for _, ci := range core.Calls(f) {
-			if ci.Common().StaticCallee() == newCtx {
-				if call, ok := ci.(*ssa.Call); ok {
-					ctor = append(ctor, call)
+		for _, fn := range region.fns {
+			for _, ci := range core.Calls(fn) {
+				if ci.Common().StaticCallee() == newCtx {
+					if call, ok := ci.(*ssa.Call); ok {
+						ctor = append(ctor, call)
+					}
 				}
-			}
-			if o := core.CalleeObj(ci); o != nil && o.Name() == "ParseNode" && o.Pkg() == tp.Types {
-				parseCalls = append(parseCalls, ci)
+				if c10IsParseNode(ci, tp.Types, ctxT) {
+					parseCalls = append(parseCalls, ci)
+				}
 			}
 		}
 		if len(parseCalls) == 0 {
@@ -206,25 +211,40 @@ func c10FreshCtx(c *core.Ctx, rule string) ([]*ssa.Function, *types.Interface, *
 			if pc.Common().IsInvoke() {
 				recv = pc.Common().Value
 			}
-			call, ok := recv.(*ssa.Call)
-			isFresh := ok && call.Call.StaticCallee() == newCtx && call.Parent() == f
+			_, isCall := pc.(*ssa.Call)
+			isFresh := isCall && region.producedIn(recv, newCtx, map[ssa.Value]bool{})
 			c.Check(isFresh, rule, key+" ParseNode receiver", core.InstrPos(pc),
 				"receiver is the context constructed in this very call of Read",
 				"ParseNode is invoked on a context that was not constructed in this call of Read (memoised or shared context: results of an earlier record can be served from its cache)")
 		}
-		for _, call := range ctor {
-			okUse := true
-			for _, u := range core.Referrers(call) {
-				switch x := u.(type) {
-				case *ssa.DebugRef:
-				case ssa.CallInstruction:
-					if !(len(x.Common().Args) > 0 && x.Common().Args[0] == ssa.Value(call) && x.Common().StaticCallee() != nil && x.Common().StaticCallee().Name() == "ParseNode") {
-						okUse = false
-					}
-				default:
-					okUse = false
+		isRecvUse := func(x ssa.CallInstruction, v ssa.Value) bool {
+			if !c10IsParseNode(x, tp.Types, ctxT) {
+				return false
+			}
+			if _, isCall := x.(*ssa.Call); !isCall {
+				return false
+			}
+			cc := x.Common()
+			args := cc.Args
+			if cc.IsInvoke() {
+				if cc.Value != v {
+					return false
+				}
+			} else {
+				if len(args) == 0 || args[0] != v {
+					return false
+				}
+				args = args[1:]
+			}
+			for _, a := range args {
+				if a == v {
+					return false
 				}
 			}
+			return true
+		}
+		for _, call := range ctor {
+			okUse := region.usedOnlyAs(call, isRecvUse, repoSites, map[ssa.Value]bool{})
 			c.Check(okUse, rule, key+" context use", core.InstrPos(call), "constructed context is used only as the receiver of ParseNode", "constructed context escapes (stored, passed on, or converted)")
 		}
 	}
@@ -254,6 +274,22 @@ func c10FreshCtx(c *core.Ctx, rule string) ([]*ssa.Function, *types.Interface, *
 	c.Floor(rule, 3, "ParseNode receiver, context use, cache map")
 
 	return ingReads, readerI, tp.Types
+}
+
+// c10IsParseNode: the call is the evaluation entry of a parse context: the method ParseNode of package transform, or an
+// interface call of a method of that name through an interface type that the parse context type satisfies (a local
+// interface view of the context).
+func c10IsParseNode(ci ssa.CallInstruction, tp *types.Package, ctxT *types.Named) bool {
+	if o := core.CalleeObj(ci); o != nil && o.Name() == "ParseNode" && o.Pkg() == tp {
+		return true
+	}
+	cc := ci.Common()
+	if cc.IsInvoke() && cc.Method.Name() == "ParseNode" && ctxT != nil {
+		if it, ok := cc.Value.Type().Underlying().(*types.Interface); ok {
+			return types.Implements(types.NewPointer(ctxT), it) || types.Implements(ctxT, it)
+		}
+	}
+	return false
 }
 
 func ifaceHolds(v ssa.Value, pred func(types.Type) bool) bool {
@@ -479,65 +515,123 @@ func c10PathAvoidingRelease(f *ssa.Function, target ssa.CallInstruction, info *c
 }
 
 // c10FailureLeavesReader: on the branch taken when ParseNode failed, the only FormatReader method reachable
-// (through static repo callees) is FmtErr.
+// (through static repo callees) is FmtErr. The ParseNode call may sit in a helper of Read: then the failure branch is
+// the helper's own branch on the error plus, at every call site of the helper in Read's region, the branch on the
+// helper's error result (up to Read itself).
 func c10FailureLeavesReader(c *core.Ctx, f *ssa.Function, readerI *types.Interface, tp *types.Package) {
 	key := core.FuncKey(f) + " failure path"
-	for _, ci := range core.Calls(f) {
-		o := core.CalleeObj(ci)
-		if o == nil || o.Name() != "ParseNode" || o.Pkg() != tp {
-			continue
-		}
-		call, ok := ci.(*ssa.Call)
-		if !ok {
-			continue
-		}
-		// find the error extract and the If on it
-		var failBlocks []*ssa.BasicBlock
-		for _, u := range core.Referrers(call) {
-			ex, ok := u.(*ssa.Extract)
-			if !ok || ex.Index != 1 {
+	var ctxT *types.Named
+	if newCtx := c.Func("extensions/omniv21/transform", "NewParseCtx"); newCtx != nil {
+		ctxT = core.NamedOf(newCtx.Signature.Results().At(0).Type())
+	}
+	region := c10RegionOf(f)
+	errT := types.Universe.Lookup("error").Type()
+	found := 0
+	for _, fn := range region.fns {
+		for _, ci := range core.Calls(fn) {
+			if !c10IsParseNode(ci, tp, ctxT) {
 				continue
 			}
-			for _, u2 := range core.Referrers(ex) {
-				bo, ok := u2.(*ssa.BinOp)
-				if !ok || !(core.IsNilConst(bo.X) || core.IsNilConst(bo.Y)) {
+			call, ok := ci.(*ssa.Call)
+			if !ok {
+				continue
+			}
+			found++
+			tests, bad := 0, ""
+			type item struct {
+				call *ssa.Call
+				idx  int // index of the error result; -1: the call value itself is the error
+			}
+			work := []item{{call, 1}}
+			seen := map[*ssa.Call]bool{}
+			for len(work) > 0 {
+				it := work[0]
+				work = work[1:]
+				if seen[it.call] {
 					continue
 				}
-				for _, u3 := range core.Referrers(bo) {
-					ifi, ok := u3.(*ssa.If)
-					if !ok {
+				seen[it.call] = true
+				host := it.call.Parent()
+				var errVals []ssa.Value
+				if it.idx < 0 {
+					errVals = append(errVals, it.call)
+				} else {
+					for _, u := range core.Referrers(it.call) {
+						if ex, ok := u.(*ssa.Extract); ok && ex.Index == it.idx {
+							errVals = append(errVals, ex)
+						}
+					}
+				}
+				for _, fb := range c10NonNilBranches(errVals) {
+					tests++
+					for _, b := range host.Blocks {
+						if !fb.Dominates(b) {
+							continue
+						}
+						for _, in := range b.Instrs {
+							if cj, ok := in.(ssa.CallInstruction); ok {
+								if m := readerMethodReached(cj, readerI, 0, map[*ssa.Function]bool{}); m != "" && m != "FmtErr" {
+									bad = m
+								}
+							}
+						}
+					}
+				}
+				if host == f {
+					continue
+				}
+				// the failure leaves the helper through its error result(s): continue at the helper's call sites
+				res := host.Signature.Results()
+				for i := 0; i < res.Len(); i++ {
+					if !types.Identical(res.At(i).Type(), errT) {
 						continue
 					}
-					if bo.Op == token.NEQ {
-						failBlocks = append(failBlocks, ifi.Block().Succs[0])
-					} else if bo.Op == token.EQL {
-						failBlocks = append(failBlocks, ifi.Block().Succs[1])
-					}
-				}
-			}
-		}
-		if len(failBlocks) == 0 {
-			c.Unknown("R10c", key, core.InstrPos(ci), "the error result of ParseNode is not tested against nil in a recognisable way")
-			continue
-		}
-		for _, fb := range failBlocks {
-			// blocks dominated by fb
-			bad := ""
-			for _, b := range f.Blocks {
-				if !fb.Dominates(b) {
-					continue
-				}
-				for _, in := range b.Instrs {
-					if cj, ok := in.(ssa.CallInstruction); ok {
-						if m := readerMethodReached(cj, readerI, 0, map[*ssa.Function]bool{}); m != "" && m != "FmtErr" {
-							bad = m
+					for _, site := range region.sites[host] {
+						if sc, ok := site.(*ssa.Call); ok {
+							idx := i
+							if res.Len() == 1 {
+								idx = -1
+							}
+							work = append(work, item{sc, idx})
 						}
 					}
 				}
 			}
+			if tests == 0 {
+				c.Unknown("R10c", key, core.InstrPos(ci), "the error result of ParseNode is not tested against nil in a recognisable way")
+				continue
+			}
 			c.Check(bad == "", "R10c", key, core.InstrPos(ci), "only FormatReader.FmtErr is reachable on the failed-record branch", "FormatReader."+bad+" is called on the failed-record branch: a per-record failure consumes or releases reader state")
 		}
 	}
+	if found == 0 {
+		c.Unknown("R10c", key, f.Pos(), "no ParseNode call found in Ingester.Read or its helpers: the failed-record branch could not be identified")
+	}
+}
+
+// c10NonNilBranches: the blocks entered exactly when one of vals (error values) compared non-nil.
+func c10NonNilBranches(vals []ssa.Value) []*ssa.BasicBlock {
+	var out []*ssa.BasicBlock
+	for _, v := range vals {
+		for _, u2 := range core.Referrers(v) {
+			bo, ok := u2.(*ssa.BinOp)
+			if !ok || !(core.IsNilConst(bo.X) || core.IsNilConst(bo.Y)) {
+				continue
+			}
+			for _, u3 := range core.Referrers(bo) {
+				ifi, ok := u3.(*ssa.If)
+				if !ok {
+					continue
+				}
+				if bo.Op == token.NEQ {
+					out = append(out, ifi.Block().Succs[0])
+				} else if bo.Op == token.EQL {
+					out = append(out, ifi.Block().Succs[1])
+				}
+			}
+		}
+	}
+	return out
 }
 
 // readerMethodReached returns the name of a FormatReader method (other than FmtErr, preferably) invoked by the call
@@ -656,15 +750,51 @@ func isInt(t types.Type) bool {
 	return ok && b.Kind() == types.Int
 }
 
+// reslicesReceiverField: f assigns to a slice-typed field of its receiver a value carved out of that very field: a
+// reslice r.buf[a:b] of it, or append(r.buf[:k], r.buf[n:]...) over reslices of it (the shift-down-and-shrink idiom).
 func reslicesReceiverField(f *ssa.Function) bool {
-	for _, w := range core.Writes(f) {
-		if w.Kind == "field" && w.Root == ssa.Value(f.Params[0]) {
-			if _, ok := w.Val.(*ssa.Slice); ok {
-				if _, isSlice := w.Field.Type().Underlying().(*types.Slice); isSlice {
-					return true
-				}
-			}
+	if len(f.Params) == 0 {
+		return false
+	}
+	for _, in := range core.Writes(f) {
+		w := in
+		if w.Kind != "field" || w.Root != ssa.Value(f.Params[0]) || w.Field == nil {
+			continue
 		}
+		if _, isSlice := w.Field.Type().Underlying().(*types.Slice); !isSlice {
+			continue
+		}
+		if carvedFromField(w.Val, w.Field, f.Params[0], true, 0) {
+			return true
+		}
+	}
+	return false
+}
+
+// carvedFromField: v is built from loads of recv.<...>.field only by reslicing and (builtin) append; top requires at
+// least one such operation (a plain copy of the field is not a pop).
+func carvedFromField(v ssa.Value, field *types.Var, recv ssa.Value, top bool, d int) bool {
+	if d > 6 {
+		return false
+	}
+	switch x := v.(type) {
+	case *ssa.Slice:
+		return carvedFromField(x.X, field, recv, false, d+1)
+	case *ssa.Call:
+		if b, ok := x.Call.Value.(*ssa.Builtin); ok && b.Name() == "append" && len(x.Call.Args) == 2 {
+			return carvedFromField(x.Call.Args[0], field, recv, false, d+1) && carvedFromField(x.Call.Args[1], field, recv, false, d+1)
+		}
+		return false
+	case *ssa.UnOp:
+		if top || x.Op != token.MUL {
+			return false
+		}
+		fa, ok := x.X.(*ssa.FieldAddr)
+		if !ok || core.FieldOfAddr(fa) != field {
+			return false
+		}
+		_, root := core.TraceAddr(fa)
+		return root == recv
 	}
 	return false
 }
